@@ -374,12 +374,15 @@ def gen_case(ch: Chooser, excl=()):
     options = {"project": "P", "src_dir": "./src", "output_dir": "./doc", "preprocess": False, "parallel": 0,
                "display": ch.choice(DISPLAYS), "proc_internals": ch.bool(), "hide_undoc": ch.bool(1, 3),
                "search": ch.bool(3, 4), "incl_src": ch.bool(3, 4), "graph": ch.bool(1, 6)}
+    if "display_case" not in excl and ch.bool(1, 3):
+        # the values are keywords: `display: Public` selects what `display: public` selects
+        options["display"] = [ch.choice([v.capitalize(), v.upper()]) for v in options["display"]]
     files, used = render.render_project(proj, ch, features={"comments": False, "docstyles": ["post"], "inline_docs": False})
     files["project.md"] = site.project_file(options, "Project text.\n")
     X = expect_project(proj, options)
     show = [[t, list(w)] for t, w in X.show if t not in X.skip]
     hide = [[t, str(w)] for t, w in X.hide if t not in X.skip]
-    classes = ["display:" + "+".join(options["display"]), "proc_internals:" + str(options["proc_internals"]),
+    classes = ["display:" + "+".join(options["display"]).lower(), "proc_internals:" + str(options["proc_internals"]),
                "hide_undoc:" + str(options["hide_undoc"])]
     return {"files": files, "options": options, "show": show, "hide": hide, "nopage": [list(x) for x in X.nopage],
             "classes": classes, "nontrivial": bool(show) and bool(hide)}
